@@ -1,115 +1,58 @@
-//! Stub bodies used by the Kani harnesses (`#[kani::stub(..)]`, `-Z stubbing`).
+//! Stub wrappers used by the Kani harnesses (`#[kani::stub(..)]`, `-Z stubbing`).
 //!
-//! Every stub is part of the claim of each harness that lists it.  The bodies are
-//! compiled natively as well: the native tests in `crate::native_tests` run the honest
-//! prove/verify round trip with `verif_native_stubs` in force (see `vendor/README`),
-//! which routes the *same* functions below into the patched `keccak` / `rand_chacha`
-//! crates, so that an honest run under the stubs is known not to be degenerate.
+//! Every stub is part of the claim of each harness that lists it.  The *bodies* live in the
+//! dependency-free crate `verif-stub-core` (`/verif/kani/stub-core`); the functions below only
+//! adapt types.  The same bodies are compiled into the patched copies of keccak / rand_chacha /
+//! merlin / sha3 under `/verif/kani/vendor` when their `verif-stub` feature is on, which is how
+//! the native tests run honest prove/verify round trips *under the stubs* (NOTES.md, "native").
+//!
+//! Level 1 (STROBE / SHA-3 framing stays real):
 //!
 //! | replaced function | stub | what is lost |
 //! |---|---|---|
-//! | `keccak::f1600`, `keccak::p1600` | `f1600_stub`, `p1600_stub` | the Keccak permutation is replaced by one pass of invertible lane mixing; Merlin/STROBE and SHA-3 framing code stays real |
-//! | `zeroize::optimization_barrier` | `barrier_stub` | inline asm compiler fence -> no-op (no functional effect) |
+//! | `keccak::f1600`, `keccak::p1600` | `f1600_stub`, `p1600_stub` | the Keccak permutation becomes two passes of invertible lane mixing |
+//! | `zeroize::optimization_barrier` | `barrier_stub` | empty inline-asm compiler fence -> no-op (no functional effect) |
 //! | `<ChaCha20Core as SeedableRng>::from_seed` | `chacha_from_seed_stub` | ppv-lite86 SIMD dispatch (CPUID + SSE/AVX intrinsics) is not modelled by Kani |
-//! | `<ChaCha20Core as BlockRngCore>::generate` (= `guts::ChaCha::refill4`) | `chacha_generate_stub` | ChaCha20 block function -> keyed counter filler, never all-zero |
+//! | `<ChaCha20Core as BlockRngCore>::generate` (= `guts::ChaCha::refill4`) | `chacha_generate_stub` | ChaCha20 block function -> keyed counter filler, no word zero |
 //! | `alloc::fmt::format` | `format_stub` | error-path string formatting -> empty string |
+//!
+//! Level 2 (toy transcript; for harnesses that run a whole prover / verifier):
+//!
+//! | replaced function | stub |
+//! |---|---|
+//! | `merlin::Transcript::{new, append_message, challenge_bytes}` | `toy_transcript_new`, `toy_append_message`, `toy_challenge_bytes` |
+//! | `merlin::TranscriptRngBuilder::{rekey_with_witness_bytes, finalize}` | `toy_rekey`, `toy_finalize` |
+//! | `<merlin::TranscriptRng as RngCore>::fill_bytes` | `toy_rng_fill_bytes` |
+//! | `<sha3::Sha3_512Core as FixedOutputCore>::finalize_fixed_core` | `sha3_512_finalize_stub` |
+//!
+//! The toy transcript keeps a 64-bit FNV-1a style accumulator in the first 8 bytes of the
+//! (otherwise unused) STROBE state; every label, length and message byte is folded into it and
+//! challenges are squeezed from it.  Kept: challenges are a deterministic function of everything
+//! appended so far, in order; prover and verifier derive equal challenges from equal
+//! transcripts.  Lost: STROBE framing and every cryptographic property.  Harnesses using level 2
+//! claim shape / panic / threshold / bookkeeping facts only.
+use digest::core_api::Buffer;
+use digest::Output;
+use merlin::{Transcript, TranscriptRng, TranscriptRngBuilder};
 use rand_chacha::ChaCha20Core;
 use rand_core::block::BlockRngCore;
+use sha3::Sha3_512Core;
+use verif_stub_core as core_;
 
 // ------------------------------------------------------------------------------------------
-// Keccak
+// Level 1
 // ------------------------------------------------------------------------------------------
 
-macro_rules! lane {
-    ($s:ident, $i:expr) => {
-        $s[$i] = $s[$i].rotate_left(7 + ($i as u32 % 13))
-            ^ $s[($i + 1) % 25].wrapping_add(0x9E37_79B9_7F4A_7C15u64 ^ (($i as u64) << 17) ^ ($i as u64));
-    };
-}
-
-/// One pass of sequential lane mixing over the 25 lanes (straight-line: no loop, so it does
-/// not contribute to any unwinding bound).  It is a permutation of the state space: lane
-/// `i` is replaced by `rotl(s[i]) ^ (s[i+1] + c_i)` where `s[i+1]` is still the old value
-/// (for `i = 24` the *new* `s[0]`), which can be undone from lane 24 downwards.
-#[inline(never)]
+/// `keccak::f1600`
 pub fn f1600_stub(s: &mut [u64; 25]) {
-    lane!(s, 0);
-    lane!(s, 1);
-    lane!(s, 2);
-    lane!(s, 3);
-    lane!(s, 4);
-    lane!(s, 5);
-    lane!(s, 6);
-    lane!(s, 7);
-    lane!(s, 8);
-    lane!(s, 9);
-    lane!(s, 10);
-    lane!(s, 11);
-    lane!(s, 12);
-    lane!(s, 13);
-    lane!(s, 14);
-    lane!(s, 15);
-    lane!(s, 16);
-    lane!(s, 17);
-    lane!(s, 18);
-    lane!(s, 19);
-    lane!(s, 20);
-    lane!(s, 21);
-    lane!(s, 22);
-    lane!(s, 23);
-    lane!(s, 24);
-    // second pass in the other direction so that every output lane depends on every input
-    // lane; also invertible (s[24] is untouched, each step adds a function of lanes already
-    // recovered)
-    let mut acc = s[24];
-    macro_rules! back {
-        ($i:expr) => {
-            s[$i] = s[$i].wrapping_add(acc.rotate_left(29));
-            acc = acc.rotate_left(11) ^ s[$i];
-        };
-    }
-    back!(23);
-    back!(22);
-    back!(21);
-    back!(20);
-    back!(19);
-    back!(18);
-    back!(17);
-    back!(16);
-    back!(15);
-    back!(14);
-    back!(13);
-    back!(12);
-    back!(11);
-    back!(10);
-    back!(9);
-    back!(8);
-    back!(7);
-    back!(6);
-    back!(5);
-    back!(4);
-    back!(3);
-    back!(2);
-    back!(1);
-    back!(0);
+    core_::f1600_core(s)
 }
-
-/// `keccak::p1600` (used by the `sha3` crate) -> same mixing, round count ignored.
-#[inline(never)]
+/// `keccak::p1600` (used by the `sha3` crate): same mixing, round count ignored.
 pub fn p1600_stub(s: &mut [u64; 25], _round_count: usize) {
-    f1600_stub(s)
+    core_::f1600_core(s)
 }
-
-// ------------------------------------------------------------------------------------------
-// zeroize
-// ------------------------------------------------------------------------------------------
-
 /// `zeroize::optimization_barrier` is an empty inline-asm statement.
 pub fn barrier_stub<T: ?Sized>(_val: &T) {}
-
-// ------------------------------------------------------------------------------------------
-// rand_chacha
-// ------------------------------------------------------------------------------------------
 
 /// Layout twin of `rand_chacha::ChaCha20Core { state: guts::ChaCha { b, c, d: vec128_storage } }`:
 /// three 16-byte, 16-aligned words: key[0..4], key[4..8], (counter lo, counter hi, nonce, nonce).
@@ -122,117 +65,24 @@ const _: () = assert!(core::mem::align_of::<ChaCha20Core>() <= core::mem::align_
 
 /// `<ChaCha20Core as SeedableRng>::from_seed`: key words = seed, counter = 0, nonce = 0.
 pub fn chacha_from_seed_stub(seed: [u8; 32]) -> ChaCha20Core {
-    let mut w = [0u32; 12];
-    macro_rules! kw {
-        ($i:expr) => {
-            w[$i] = u32::from_le_bytes([seed[4 * $i], seed[4 * $i + 1], seed[4 * $i + 2], seed[4 * $i + 3]]);
-        };
-    }
-    kw!(0);
-    kw!(1);
-    kw!(2);
-    kw!(3);
-    kw!(4);
-    kw!(5);
-    kw!(6);
-    kw!(7);
+    let w = core_::chacha_seed_core(seed);
     // SAFETY: same size (checked above), all bit patterns valid for the SIMD storage union.
     unsafe { core::mem::transmute::<ChaChaTwin, ChaCha20Core>(ChaChaTwin(w)) }
 }
-
-#[inline(always)]
-fn mix32(k: u32, ctr: u32, i: u32) -> u32 {
-    let x = k ^ ctr.wrapping_mul(0x9E37_79B9).wrapping_add(i.wrapping_mul(0x85EB_CA6B));
-    let x = x.rotate_left(13).wrapping_mul(0xC2B2_AE35) ^ (x >> 7);
-    // never zero: forces the lowest bit of the high half, keeps the low 16 bits free
-    x | 0x0001_0000
-}
-
-/// `<ChaCha20Core as BlockRngCore>::generate`: fills the 64 output words with a keyed,
-/// counter-dependent pattern (no word is zero) and advances the block counter by 4, as the
-/// real `refill4` does.  Straight-line code (no loop).
+/// `<ChaCha20Core as BlockRngCore>::generate`
 pub fn chacha_generate_stub(this: &mut ChaCha20Core, r: &mut <ChaCha20Core as BlockRngCore>::Results) {
     // SAFETY: layout twin, see above.
     let st: &mut ChaChaTwin = unsafe { &mut *(this as *mut ChaCha20Core as *mut ChaChaTwin) };
-    let ctr = st.0[8];
-    let out: &mut [u32] = r.as_mut();
-    let k = st.0;
-    // fold the whole key into one word so that every output word depends on every key word
-    let fold = k[0]
-        ^ k[1].rotate_left(3)
-        ^ k[2].rotate_left(6)
-        ^ k[3].rotate_left(9)
-        ^ k[4].rotate_left(12)
-        ^ k[5].rotate_left(15)
-        ^ k[6].rotate_left(18)
-        ^ k[7].rotate_left(21);
-    macro_rules! ow {
-        ($($i:expr),*) => { $( out[$i] = mix32(fold ^ k[$i % 8], ctr, $i); )* };
-    }
-    ow!(0, 1, 2, 3, 4, 5, 6, 7, 8, 9, 10, 11, 12, 13, 14, 15);
-    ow!(16, 17, 18, 19, 20, 21, 22, 23, 24, 25, 26, 27, 28, 29, 30, 31);
-    ow!(32, 33, 34, 35, 36, 37, 38, 39, 40, 41, 42, 43, 44, 45, 46, 47);
-    ow!(48, 49, 50, 51, 52, 53, 54, 55, 56, 57, 58, 59, 60, 61, 62, 63);
-    st.0[8] = ctr.wrapping_add(4);
+    core_::chacha_generate_core(&mut st.0, r.as_mut());
 }
-
-// ------------------------------------------------------------------------------------------
-// formatting on error paths
-// ------------------------------------------------------------------------------------------
-
 /// `alloc::fmt::format` -> empty string (only reachable through `to_string()` on io errors).
 pub fn format_stub(_args: core::fmt::Arguments<'_>) -> String {
     String::new()
 }
 
 // ------------------------------------------------------------------------------------------
-// A trivial external RNG for `Prover::prove` / `batch_verify` (caller-supplied randomness).
+// Level 2
 // ------------------------------------------------------------------------------------------
-
-/// Counter RNG; deterministic, never yields an all-zero word.
-pub struct CounterRng(pub u32);
-impl rand_core::RngCore for CounterRng {
-    fn next_u32(&mut self) -> u32 {
-        self.0 = self.0.wrapping_add(1);
-        mix32(0xA5A5_5A5A, self.0, 7)
-    }
-    fn next_u64(&mut self) -> u64 {
-        let lo = self.next_u32() as u64;
-        let hi = self.next_u32() as u64;
-        (hi << 32) | lo
-    }
-    fn fill_bytes(&mut self, dest: &mut [u8]) {
-        let mut i = 0;
-        while i < dest.len() {
-            if i % 4 == 0 {
-                self.0 = self.0.wrapping_add(1);
-            }
-            dest[i] = (mix32(0xA5A5_5A5A, self.0, 7) >> (8 * (i % 4) as u32)) as u8;
-            i += 1;
-        }
-    }
-    fn try_fill_bytes(&mut self, dest: &mut [u8]) -> Result<(), rand_core::Error> {
-        self.fill_bytes(dest);
-        Ok(())
-    }
-}
-impl rand_core::CryptoRng for CounterRng {}
-
-// ------------------------------------------------------------------------------------------
-// Level 2: toy transcript (Merlin API level).
-//
-// With only the Keccak permutation stubbed, one `Verifier::verify` path costs CBMC's symbolic
-// execution more than 25 minutes (NOTES.md), so harnesses that run a whole prover or verifier
-// replace Merlin's *operations* as well.  The toy transcript keeps a 64-bit FNV-1a style
-// accumulator in the first 8 bytes of the (otherwise unused) STROBE state; every label,
-// length and message byte is folded into it, challenges are squeezed from it.  What is kept:
-// challenges are a deterministic function of everything appended so far, in order, and prover
-// and verifier derive equal challenges from equal transcripts.  What is lost: STROBE framing
-// and every cryptographic property.  Harnesses using these stubs claim shape / panic /
-// threshold facts only.
-// ------------------------------------------------------------------------------------------
-
-use merlin::{Transcript, TranscriptRng, TranscriptRngBuilder};
 
 /// Layout twin of `merlin::strobe::Strobe128` (and of the three single-field wrappers).
 #[repr(C, align(8))]
@@ -246,9 +96,6 @@ const _: () = assert!(core::mem::size_of::<StrobeTwin>() == core::mem::size_of::
 const _: () = assert!(core::mem::size_of::<StrobeTwin>() == core::mem::size_of::<TranscriptRngBuilder>());
 const _: () = assert!(core::mem::size_of::<StrobeTwin>() == core::mem::size_of::<TranscriptRng>());
 const _: () = assert!(core::mem::align_of::<StrobeTwin>() >= core::mem::align_of::<Transcript>());
-
-const FNV_PRIME: u64 = 0x0000_0100_0000_01B3;
-const FNV_BASIS: u64 = 0xCBF2_9CE4_8422_2325;
 
 #[inline(always)]
 fn acc_get(p: *mut u8) -> u64 {
@@ -269,58 +116,28 @@ fn acc_set(p: *mut u8, a: u64) {
         *p.add(7) = b[7];
     }
 }
-#[inline(always)]
-fn fold1(a: u64, b: u8) -> u64 {
-    (a ^ b as u64).wrapping_mul(FNV_PRIME)
-}
-#[inline(always)]
-fn fold(mut a: u64, tag: u8, data: &[u8]) -> u64 {
-    a = fold1(a, tag);
-    a = fold1(a, data.len() as u8);
-    let mut i = 0;
-    while i < data.len() {
-        a = fold1(a, data[i]);
-        i += 1;
-    }
-    a
-}
-#[inline(always)]
-fn squeeze(mut a: u64, dest: &mut [u8]) -> u64 {
-    let mut i = 0;
-    while i < dest.len() {
-        a = (a ^ (a >> 29)).wrapping_mul(0xBF58_476D_1CE4_E5B9).wrapping_add(0x9E37_79B9_7F4A_7C15);
-        dest[i] = (a >> 32) as u8;
-        i += 1;
-    }
-    a
-}
 
 /// `merlin::Transcript::new`
 pub fn toy_transcript_new(label: &'static [u8]) -> Transcript {
     let mut tw = StrobeTwin { state: [0u8; 200], pos: 0, pos_begin: 0, cur_flags: 0 };
-    let a = fold(FNV_BASIS, 0x01, label);
-    acc_set(tw.state.as_mut_ptr(), a);
+    acc_set(tw.state.as_mut_ptr(), core_::toy_new_core(label));
     // SAFETY: same size; every bit pattern is a valid Strobe128.
     unsafe { core::mem::transmute::<StrobeTwin, Transcript>(tw) }
 }
 /// `merlin::Transcript::append_message`
 pub fn toy_append_message(t: &mut Transcript, label: &'static [u8], message: &[u8]) {
     let p = t as *mut Transcript as *mut u8;
-    let a = fold(fold(acc_get(p), 0x02, label), 0x03, message);
-    acc_set(p, a);
+    acc_set(p, core_::toy_append_core(acc_get(p), label, message));
 }
 /// `merlin::Transcript::challenge_bytes`
 pub fn toy_challenge_bytes(t: &mut Transcript, label: &'static [u8], dest: &mut [u8]) {
     let p = t as *mut Transcript as *mut u8;
-    let a = fold1(fold(acc_get(p), 0x04, label), dest.len() as u8);
-    let a = squeeze(a, dest);
-    acc_set(p, a);
+    acc_set(p, core_::toy_challenge_core(acc_get(p), label, dest));
 }
 /// `merlin::TranscriptRngBuilder::rekey_with_witness_bytes`
 pub fn toy_rekey(mut b: TranscriptRngBuilder, label: &'static [u8], witness: &[u8]) -> TranscriptRngBuilder {
     let p = &mut b as *mut TranscriptRngBuilder as *mut u8;
-    let a = fold(fold(acc_get(p), 0x05, label), 0x06, witness);
-    acc_set(p, a);
+    acc_set(p, core_::toy_rekey_core(acc_get(p), label, witness));
     b
 }
 /// `merlin::TranscriptRngBuilder::finalize`
@@ -331,22 +148,53 @@ where
     let mut bytes = [0u8; 32];
     rng.fill_bytes(&mut bytes);
     let p = &mut b as *mut TranscriptRngBuilder as *mut u8;
-    let a = fold(acc_get(p), 0x07, &bytes);
-    acc_set(p, a);
+    acc_set(p, core_::toy_finalize_core(acc_get(p), &bytes));
     // SAFETY: both are single-field wrappers of Strobe128.
     unsafe { core::mem::transmute::<TranscriptRngBuilder, TranscriptRng>(b) }
 }
 /// `<merlin::TranscriptRng as RngCore>::fill_bytes`
 pub fn toy_rng_fill_bytes(r: &mut TranscriptRng, dest: &mut [u8]) {
     let p = r as *mut TranscriptRng as *mut u8;
-    let a = fold1(fold1(acc_get(p), 0x08), dest.len() as u8);
-    let a = squeeze(a, dest);
-    acc_set(p, a);
+    acc_set(p, core_::toy_fill_core(acc_get(p), dest));
 }
-/// `<core::slice::IterMut<'_, u8> as zeroize::Zeroize>::zeroize` (reached from the `Drop` of
-/// every STROBE state: a 200-iteration volatile-write loop) -> one `memset`.
-pub fn iter_zeroize_stub(it: &mut core::slice::IterMut<'_, u8>) {
-    let s = core::mem::take(it).into_slice();
-    // SAFETY: `s` is a valid exclusive slice.
-    unsafe { core::ptr::write_bytes(s.as_mut_ptr(), 0, s.len()) }
+/// `<Sha3_512Core as FixedOutputCore>::finalize_fixed_core`: the real one pads the 72-byte block
+/// byte by byte, absorbs it and runs the permutation (135k symex steps per generator chain even
+/// with the permutation stubbed).  The stub folds the buffered bytes (label material of
+/// `GeneratorsChain::new`: always < 72 bytes, so nothing has been absorbed before) into a 64-bit
+/// accumulator and expands it to the 64 output bytes.
+pub fn sha3_512_finalize_stub(_this: &mut Sha3_512Core, buffer: &mut Buffer<Sha3_512Core>, out: &mut Output<Sha3_512Core>) {
+    core_::sha3_512_finalize_core(buffer.get_data(), out.as_mut_slice());
 }
+
+// ------------------------------------------------------------------------------------------
+// A trivial external RNG for `Prover::prove` / `batch_verify` (caller-supplied randomness).
+// ------------------------------------------------------------------------------------------
+
+/// Counter RNG; deterministic, never yields an all-zero word.
+pub struct CounterRng(pub u32);
+impl rand_core::RngCore for CounterRng {
+    fn next_u32(&mut self) -> u32 {
+        self.0 = self.0.wrapping_add(1);
+        core_::mix32(0xA5A5_5A5A, self.0, 7)
+    }
+    fn next_u64(&mut self) -> u64 {
+        let lo = self.next_u32() as u64;
+        let hi = self.next_u32() as u64;
+        (hi << 32) | lo
+    }
+    fn fill_bytes(&mut self, dest: &mut [u8]) {
+        let mut i = 0;
+        while i < dest.len() {
+            if i % 4 == 0 {
+                self.0 = self.0.wrapping_add(1);
+            }
+            dest[i] = (core_::mix32(0xA5A5_5A5A, self.0, 7) >> (8 * (i % 4) as u32)) as u8;
+            i += 1;
+        }
+    }
+    fn try_fill_bytes(&mut self, dest: &mut [u8]) -> Result<(), rand_core::Error> {
+        self.fill_bytes(dest);
+        Ok(())
+    }
+}
+impl rand_core::CryptoRng for CounterRng {}
